@@ -379,7 +379,8 @@ func runC01() {
 					kids = append(kids, seqx.Step{Op: "With", Fields: []seqx.Field{seqx.Rekey(a, 0)}})
 				}
 			}
-			kids = append(kids, seqx.Step{Op: "WithEmpty"}, seqx.Step{Op: "Timestamp"}, seqx.Step{Op: "Hook", Hooks: []int{1}}, seqx.Step{Op: "Caller"}, seqx.Step{Op: "Stack"},
+			kids = append(kids, seqx.Step{Op: "WithEmpty"}, seqx.Step{Op: "Timestamp"}, seqx.Step{Op: "Hook", Hooks: []int{1}}, seqx.Step{Op: "Caller"}, seqx.Step{Op: "Stack"}, seqx.Step{Op: "Level", Level: zerolog.DebugLevel}, seqx.Step{Op: "Sample"},
+				seqx.Step{Op: "UpdateReset", Fields: []seqx.Field{{M: "Str", Key: "r", Val: "x"}}}, seqx.Step{Op: "UpdateContext", Fields: []seqx.Field{{M: "Str", Key: "u", Val: "y"}}},
 				seqx.Step{Op: "With", Fields: []seqx.Field{{M: "Str", Key: "long", Val: strings.Repeat("L", 40)}, {M: "Int", Key: "n", Val: 1}}})
 			for _, par := range parents {
 				for _, a := range kids {
